@@ -24,3 +24,19 @@ for p in C06 C01 C02 C03 C04 C05 C07 C08 C09 C10 C11 C12; do
   ./check $p --triage --emit-known /tmp/k_$p.json 2>&1 | grep -E "TOOL|triage:" | sed "s/^/$p /"
   [ -s /tmp/k_$p.json ] && python3 tools/addknown.py /tmp/k_$p.json "$(desc $p)"
 done
+# classes that are recognisable from the signature get their own description
+python3 - <<'PY'
+import json
+k=json.load(open('known_findings.json'))
+SPECIAL=[
+ (lambda s: s.startswith('sortrequires|') and 'range:' in s and 'semi:' in s and ';sort=on' in s,
+  "require sorting under a range: positions are recomputed after the group has been sorted, so a statement that was inside the range can fall outside it afterwards - it is then printed unformatted while the semicolon that separated it from a following '(' statement has been dropped with its former neighbour"),
+]
+n=0
+for f in k['findings']:
+    for pred,desc in SPECIAL:
+        if pred(f['signature']):
+            f['class']=desc; n+=1
+json.dump(k,open('known_findings.json','w'),indent=1)
+print("re-described", n)
+PY
